@@ -556,7 +556,35 @@ func TestRandom(t *testing.T) {
 				rapid.Custom(func(t *rapid.T) string {
 					return strings.TrimSpace(strings.Repeat(rapid.SampledFrom([]string{"Very Long Reason ", "x", "é "}).Draw(t, "unit"), rapid.SampledFrom([]int{70, 300, 1024, 4096, 9000}).Draw(t, "n")))
 				})).Draw(rt, "phrase")
-			run(t, rt, Case{Prim: "status", Mode: "identity", N: int64(rapid.IntRange(100, 999).Draw(rt, "code")), S: vev.B(s)}, s != "")
+			code := rapid.IntRange(100, 999).Draw(rt, "code")
+			if rapid.IntRange(0, 3).Draw(rt, "near-standard") == 0 {
+				// phrases that are almost the registered one of this or another code (after C16-s18): letter case,
+				// one letter changed, cut short, extended
+				code = rapid.SampledFrom([]int{100, 200, 201, 204, 207, 301, 304, 400, 403, 404, 409, 412, 415, 423, 424, 500, 507}).Draw(rt, "std-code")
+				std := http.StatusText(rapid.SampledFrom([]int{code, code, code, 200, 404, 207}).Draw(rt, "phrase-of"))
+				switch rapid.IntRange(0, 6).Draw(rt, "variant") {
+				case 0:
+					s = strings.ToUpper(std)
+				case 1:
+					s = strings.ToLower(std)
+				case 2:
+					i := rapid.IntRange(0, len(std)-1).Draw(rt, "at")
+					s = std[:i] + strings.ToUpper(std[i:i+1]) + std[i+1:]
+					if s == std {
+						s = std[:i] + strings.ToLower(std[i:i+1]) + std[i+1:]
+					}
+				case 3:
+					s = std[:rapid.IntRange(1, len(std)).Draw(rt, "cut")]
+				case 4:
+					s = std + rapid.SampledFrom([]string{".", " ", "s", " (x)"}).Draw(rt, "tail")
+					s = strings.TrimSpace(s)
+				case 5:
+					s = strings.ReplaceAll(std, " ", "  ")
+				default:
+					s = std
+				}
+			}
+			run(t, rt, Case{Prim: "status", Mode: "identity", N: int64(code), S: vev.B(s)}, s != "")
 		case 4:
 			s := rapid.OneOf(rapid.StringMatching(`(HTTP/1\.1|HTTP|FOO|)[ \t]{0,2}[-+0-9a-fx_.]{0,5}[ \t]{0,2}[A-Za-z ]{0,6}`), genBytes()).Draw(rt, "text")
 			if s == "" || statusRe.MatchString(s) {
